@@ -627,6 +627,14 @@ theorem client_decodes_one_reply_per_command (σ : Type) (ex : Exec σ) (s0 : σ
   refine ⟨feedAll_encoded c hcc cenv hcd _ (replyVals_ok ex _ hex _ _) chunks hch hsm, ?_⟩
   rw [replyVals_length, List.length_map]
 
+/-- non-vacuity of the hypotheses: an executor whose every reply is `+OK` satisfies `ValOK` for both
+    decoders; the guarded default configuration satisfies the hypotheses of `written_refines_actions`
+    and `malformed_no_crash` -/
+example : (∀ (s : Unit) (f : Val) (p : Path), ValOK codec2 cfg14.env ((fun (u : Unit) (_ : Val) (_ : Path) => (u, Val.simple [79, 75])) s f p).2) ∧
+    cfgG.checked = true ∧ cfgG.nameGuard = true ∧ cfgG.codec = codec1 ∧ maxNesting + 1 ≤ cfgG.env.depth ∧
+    cfgG.maxBuffer < 72057594037927936 :=
+  ⟨fun _ _ _ => (by decide : ValOK codec2 cfg14.env (Val.simple [79, 75])), rfl, rfl, rfl, by decide, by decide⟩
+
 /-- non-vacuity: `SET k v`, `GET k`, `PING` cut inside a header; the peer takes 1, 7, 2 bytes, then
     everything; the client gets `+OK\r\n$1\r\nv\r\n+PONG\r\n` and decodes three replies from 3-byte pieces -/
 example : NoFail [.accept 1, .accept 7, .accept 2] = true ∧
